@@ -160,8 +160,12 @@ def describe_case(c, upto=None):
     return s
 
 
-def random_number(rng, tag, kinds=(0.6, 0.2, 0.2)):
-    x = fxgen.rate_value(rng)
+def real_of(x):
+    return float(x) if isinstance(x, (int, float)) else float(x[1])
+
+
+def random_number(rng, tag, kinds=(0.6, 0.2, 0.2), level=None):
+    x = fxgen.rate_value(rng) if level is None else level
     u = rng.random()
     if u < kinds[0]:
         return x
@@ -190,6 +194,7 @@ def gen_case(rng, ctx=None):
             ps.append((rng.choice(names), rng.choice(["xxx", "zz", names[0].upper()])))
         return ps
     ops = []
+    level = {(q[0].lower(), q[1].lower()): real_of(q[2]) for q in qs}      # the generator's idea of the current quote levels
     for j in range(rng.randint(0, 12)):
         u = rng.random()
         if u < 0.35:
@@ -197,9 +202,16 @@ def gen_case(rng, ctx=None):
             continue
         k = rng.randint(1, min(3, len(qs)))
         targets = rng.sample(qs, k)
-        upd = [(t[0], t[1], random_number(rng, "u%d" % j), st) for t in targets]
+        # one update quote in four RE-MARKS AT THE UNCHANGED LEVEL (bit-for-bit the value the pair already has) with a
+        # different kind / different variables: the market must follow the new quote, not keep the old one
+        upd = [(t[0], t[1], random_number(rng, "u%d" % j, kinds=(0.34, 0.33, 0.33) if rng.random() < 0.5 else (0.6, 0.2, 0.2),
+                                          level=(level[(t[0].lower(), t[1].lower())] if rng.random() < 0.25 else None)), st)
+               for t in targets]
         what = "update"
         v = rng.random()
+        if v >= 0.36:
+            for q in upd:
+                level[(q[0].lower(), q[1].lower())] = real_of(q[2])
         if v < 0.10:
             i = rng.randrange(len(upd))
             upd[i] = (upd[i][1], upd[i][0], upd[i][2], st)
